@@ -1460,3 +1460,186 @@ fn(LF, 'map_half_spider', kind='free', status='P', props=['C13'], rules={'t9': T
                 if ids_ok(node_ids@, fw@.len() as int) { assert forall|i: int| 0 <= i < node_ids@.len() implies ids(node_ids@)[i] < fw@.len() by { assert(node_ids@[i].0 < fw@.len()); } }
                 if in_bounds(ids(node_ids@), fw@.len() as int) { assert forall|i: int| 0 <= i < node_ids@.len() implies (#[trigger] node_ids@[i]).0 < fw@.len() by { assert(ids(node_ids@)[i] < fw@.len()); } }
             }''')])
+
+raw(r'''
+/// C10, second sentence, composition, GENERAL operands (pending unifications allowed): the strictification of the lax composite is
+/// isomorphic to ANY strict composite of the strictifications of the operands (node bijection, hyperedges in place).
+/// Proof: sum of the two operand coequalizers, pasted with the pushout's coequalizer, is a coequalizer of all pending pairs of
+/// the lax composite; so is the one `to_strict` computes; coequalizers of the same pairs differ by a bijection.
+pub proof fn lemma_strict_lax_compose_general<O: Clone, A: Clone>(f: OpenHypergraph<O, A>, g: OpenHypergraph<O, A>, c: OpenHypergraph<O, A>,
+        s: crate::open_hypergraph::OpenHypergraph<O, A>, sf: crate::open_hypergraph::OpenHypergraph<O, A>, sg: crate::open_hypergraph::OpenHypergraph<O, A>,
+        r: crate::open_hypergraph::OpenHypergraph<O, A>) -> (phi: Seq<usize>)
+    requires f.wf(), g.wf(), lawful_clone::<O>(), lawful_clone::<A>(),
+        f.targets@.len() == g.sources@.len(),
+        f.hypergraph.nodes@.len() + g.hypergraph.nodes@.len() <= usize::MAX,
+        is_lax_compose(c, f, g), c.hypergraph.nodes@ =~= f.hypergraph.nodes@ + g.hypergraph.nodes@, c.hypergraph.edges@ =~= f.hypergraph.edges@ + g.hypergraph.edges@,
+        is_strictification(s, c), is_strictification(sf, f), is_strictification(sg, g), sf.wf(), sg.wf(), s.wf(),
+        is_pushout(sf, sg, r),
+    ensures node_iso(r, s, phi)
+{
+    let nf = f.hypergraph.nodes@.len() as int; let ng = g.hypergraph.nodes@.len() as int; let nn = nf + ng; let m = f.hypergraph.adjacency@.len() as int;
+    let (midf, qff) = choose|mid: OpenHypergraph<O, A>, q: FiniteFunction|
+        #[trigger] is_quotient_of(f.hypergraph, mid.hypergraph, q) && mapped(f.sources@, mid.sources@, q.table@) && mapped(f.targets@, mid.targets@, q.table@)
+        && is_strict_of(sf.h, mid.hypergraph) && sf.s.table@ =~= ids(mid.sources@) && sf.t.table@ =~= ids(mid.targets@)
+        && (lawful_clone::<O>() ==> sf.h.w@ == mid.hypergraph.nodes@) && (lawful_clone::<A>() ==> sf.h.x@ == mid.hypergraph.edges@);
+    let (midg, qgf) = choose|mid: OpenHypergraph<O, A>, q: FiniteFunction|
+        #[trigger] is_quotient_of(g.hypergraph, mid.hypergraph, q) && mapped(g.sources@, mid.sources@, q.table@) && mapped(g.targets@, mid.targets@, q.table@)
+        && is_strict_of(sg.h, mid.hypergraph) && sg.s.table@ =~= ids(mid.sources@) && sg.t.table@ =~= ids(mid.targets@)
+        && (lawful_clone::<O>() ==> sg.h.w@ == mid.hypergraph.nodes@) && (lawful_clone::<A>() ==> sg.h.x@ == mid.hypergraph.edges@);
+    let (midc, qcf) = choose|mid: OpenHypergraph<O, A>, q: FiniteFunction|
+        #[trigger] is_quotient_of(c.hypergraph, mid.hypergraph, q) && mapped(c.sources@, mid.sources@, q.table@) && mapped(c.targets@, mid.targets@, q.table@)
+        && is_strict_of(s.h, mid.hypergraph) && s.s.table@ =~= ids(mid.sources@) && s.t.table@ =~= ids(mid.targets@)
+        && (lawful_clone::<O>() ==> s.h.w@ == mid.hypergraph.nodes@) && (lawful_clone::<A>() ==> s.h.x@ == mid.hypergraph.edges@);
+    let qf = qff.table@; let kf = qff.target as int; let qg = qgf.table@; let kg = qgf.target as int; let qc = qcf.table@; let kc = qcf.target as int;
+    let (qp, kp) = choose|q: Seq<usize>, k: int| is_coeq(q, k, glue_left(sf), glue_right(sf, sg), (sf.h.w@.len() + sg.h.w@.len()) as int) && #[trigger] is_quotient_of_jux(sf, sg, r, q, k);
+    assert(sf.h.w@.len() == kf && sg.h.w@.len() == kg);
+    assert(kf <= nf && kg <= ng) by {
+        if nf == 0 && kf > 0 { assert(hit(qf, 0, 0)); } if ng == 0 && kg > 0 { assert(hit(qg, 0, 0)); }
+        if kf > nf { lemma_surjection_small(qf, kf, nf); } if kg > ng { lemma_surjection_small(qg, kg, ng); }
+    }
+    // the pending pairs of f and g, as node numbers
+    let fs0 = ids(f.hypergraph.quotient.0@); let ft0 = ids(f.hypergraph.quotient.1@); let gs0 = ids(g.hypergraph.quotient.0@); let gt0 = ids(g.hypergraph.quotient.1@);
+    assert forall|j: int| 0 <= j < fs0.len() implies 0 <= #[trigger] fs0[j] < nf && 0 <= ft0[j] < nf by { assert(f.hypergraph.quotient.0@[j].0 < nf && f.hypergraph.quotient.1@[j].0 < nf); }
+    assert forall|j: int| 0 <= j < gs0.len() implies 0 <= #[trigger] gs0[j] < ng && 0 <= gt0[j] < ng by { assert(g.hypergraph.quotient.0@[j].0 < ng && g.hypergraph.quotient.1@[j].0 < ng); }
+    lemma_coeq_sum(qf, kf, fs0, ft0, nf, qg, kg, gs0, gt0, ng);
+    let q1 = sum_map(qf, kf, qg);
+    let s1 = fs0 + shifted(gs0, nf); let t1 = ft0 + shifted(gt0, nf);
+    // boundary pairs, upstairs and downstairs
+    let s2l = ids(f.targets@); let t2l = shifted(ids(g.sources@), nf);
+    let s2 = glue_left(sf); let t2 = glue_right(sf, sg);
+    assert forall|j: int| 0 <= j < s1.len() implies 0 <= #[trigger] s1[j] < nn && 0 <= t1[j] < nn by {
+        if j < fs0.len() { assert(s1[j] == fs0[j] && t1[j] == ft0[j]); } else { assert(s1[j] == shifted(gs0, nf)[j - fs0.len()] && t1[j] == shifted(gt0, nf)[j - fs0.len()]); }
+    }
+    assert forall|j: int| 0 <= j < s2.len() implies 0 <= #[trigger] s2l[j] < nn && 0 <= t2l[j] < nn && q1[s2l[j] as int] == s2[j] && q1[t2l[j] as int] == t2[j] by {
+        assert(f.targets@[j].0 < nf && g.sources@[j].0 < ng);
+        assert(ids(midf.targets@)[j] == midf.targets@[j].0); assert(ids(midg.sources@)[j] == midg.sources@[j].0);
+        assert(t2l[j] == nf + g.sources@[j].0);
+    }
+    lemma_coeq_paste(q1, kf + kg, s1, t1, nn, qp, kp, s2, t2, s2l, t2l);
+    let qq = Seq::new(nn as nat, |a: int| qp[q1[a] as int]);
+    // ... and those are the pending pairs of the lax composite
+    let cs = ids(c.hypergraph.quotient.0@); let ct = ids(c.hypergraph.quotient.1@);
+    assert(cs =~= s1 + s2l) by {
+        assert forall|j: int| 0 <= j < cs.len() implies cs[j] == (s1 + s2l)[j] by {
+            let l0 = fs0.len() as int; let l1 = gs0.len() as int;
+            if j < l0 { } else if j < l0 + l1 { assert(shift_ids(g.hypergraph.quotient.0@, nf)[j - l0].0 == g.hypergraph.quotient.0@[j - l0].0 + nf); } else { }
+        }
+    }
+    assert(ct =~= t1 + t2l) by {
+        assert forall|j: int| 0 <= j < ct.len() implies ct[j] == (t1 + t2l)[j] by {
+            let l0 = ft0.len() as int; let l1 = gt0.len() as int;
+            if j < l0 { } else if j < l0 + l1 { assert(shift_ids(g.hypergraph.quotient.1@, nf)[j - l0].0 == g.hypergraph.quotient.1@[j - l0].0 + nf); }
+            else { assert(shift_ids(g.sources@, nf)[j - l0 - l1].0 == g.sources@[j - l0 - l1].0 + nf); }
+        }
+    }
+    let ss = s1 + s2l; let tt = t1 + t2l;
+    assert forall|j: int| 0 <= j < ss.len() implies 0 <= #[trigger] ss[j] < nn && 0 <= tt[j] < nn by {
+        if j < s1.len() { assert(ss[j] == s1[j] && tt[j] == t1[j]); } else { assert(ss[j] == s2l[j - s1.len()] && tt[j] == t2l[j - s1.len()]); }
+    }
+    lemma_coeq_unique(qq, kp, qc, kc, ss, tt, nn);
+    if nn == 0 && kp > 0 { assert(hit(qq, 0, 0)); }
+    if nn == 0 && kc > 0 { assert(hit(qc, 0, 0)); }
+    let phi = lemma_factor_iso(qq, kp, ss, tt, nn, qc, kc);
+    // what qq is on the two parts
+    assert forall|a: int| 0 <= a < nf implies (#[trigger] qq[a]) == qp[qf[a] as int] by { }
+    assert forall|a: int| 0 <= a < ng implies (#[trigger] qq[nf + a]) == qp[kf + qg[a]] by { }
+    // labels
+    assert forall|x: int| 0 <= x < kp implies s.h.w@[(#[trigger] phi[x]) as int] == r.h.w@[x] by {
+        assert(hit(qq, x, nn));
+        let a = choose|a: int| 0 <= a < nn && #[trigger] qq[a] == x;
+        assert(phi[qq[a] as int] == qc[a]);
+        assert(midc.hypergraph.nodes@[qc[a] as int] == c.hypergraph.nodes@[a]);
+        assert(c.hypergraph.nodes@[a] == (f.hypergraph.nodes@ + g.hypergraph.nodes@)[a]);
+        if a < nf { assert(qf[a] < kf); assert(r.h.w@[qp[qf[a] as int] as int] == jux_label(sf, sg, qf[a] as int)); assert(midf.hypergraph.nodes@[qf[a] as int] == f.hypergraph.nodes@[a]); }
+        else { assert(qg[a - nf] < kg); assert(r.h.w@[qp[kf + qg[a - nf]] as int] == jux_label(sf, sg, kf + qg[a - nf])); assert(midg.hypergraph.nodes@[qg[a - nf] as int] == g.hypergraph.nodes@[a - nf]); }
+    }
+    // incidence
+    let sl = src_lens(midc.hypergraph.adjacency@); let tl = tgt_lens(midc.hypergraph.adjacency@);
+    let sfl = sf.h.s.sources.table@; let sgl = sg.h.s.sources.table@; let tfl = sf.h.t.sources.table@; let tgl = sg.h.t.sources.table@;
+    assert(sfl =~= src_lens(midf.hypergraph.adjacency@) && sgl =~= src_lens(midg.hypergraph.adjacency@) && tfl =~= tgt_lens(midf.hypergraph.adjacency@) && tgl =~= tgt_lens(midg.hypergraph.adjacency@));
+    assert(sl =~= sfl + sgl && tl =~= tfl + tgl) by {
+        assert forall|j: int| 0 <= j < sl.len() implies sl[j] == (sfl + sgl)[j] && tl[j] == (tfl + tgl)[j] by {
+            let e = midc.hypergraph.adjacency@[j]; let ce = c.hypergraph.adjacency@[j];
+            assert(mapped(ce.sources@, e.sources@, qc) && mapped(ce.targets@, e.targets@, qc));
+            if j < m { assert(ce.sources@ == f.hypergraph.adjacency@[j].sources@ && ce.targets@ == f.hypergraph.adjacency@[j].targets@);
+                       assert(mapped(f.hypergraph.adjacency@[j].sources@, midf.hypergraph.adjacency@[j].sources@, qf) && mapped(f.hypergraph.adjacency@[j].targets@, midf.hypergraph.adjacency@[j].targets@, qf)); }
+            else { let j2 = j - m; assert(c.hypergraph.adjacency@[m + j2].sources@ =~= shift_ids(g.hypergraph.adjacency@[j2].sources@, nf) && c.hypergraph.adjacency@[m + j2].targets@ =~= shift_ids(g.hypergraph.adjacency@[j2].targets@, nf));
+                   assert(mapped(g.hypergraph.adjacency@[j2].sources@, midg.hypergraph.adjacency@[j2].sources@, qg) && mapped(g.hypergraph.adjacency@[j2].targets@, midg.hypergraph.adjacency@[j2].targets@, qg)); }
+        }
+    }
+    let lf = sf.h.s.values.table@.len() as int; let lg = sg.h.s.values.table@.len() as int;
+    let mf = sf.h.t.values.table@.len() as int; let mg = sg.h.t.values.table@.len() as int;
+    lemma_psum_concat(sfl, sgl, sgl.len() as int); lemma_psum_concat(tfl, tgl, tgl.len() as int);
+    assert(s.h.s.values.table@.len() == lf + lg && s.h.t.values.table@.len() == mf + mg);
+    assert(r.h.s.values.table@.len() == lf + lg && r.h.t.values.table@.len() == mf + mg);
+    assert forall|i: int| 0 <= i < lf + lg implies (#[trigger] s.h.s.values.table@[i]) == phi[r.h.s.values.table@[i] as int] by {
+        if i < lf {
+            let (j, kk) = lemma_seg_find(sfl, i);
+            lemma_psum_prefix(sl, sfl, j); lemma_psum_prefix(sl, sfl, j + 1);
+            assert(seg_at(sl, j, kk) == seg_at(sfl, j, kk));
+            let x = f.hypergraph.adjacency@[j].sources@[kk].0 as int; assert(x < nf);
+            assert(s.h.s.values.table@[seg_at(sl, j, kk)] == midc.hypergraph.adjacency@[j].sources@[kk].0);
+            assert(mapped(c.hypergraph.adjacency@[j].sources@, midc.hypergraph.adjacency@[j].sources@, qc));
+            assert(sf.h.s.values.table@[seg_at(sfl, j, kk)] == midf.hypergraph.adjacency@[j].sources@[kk].0);
+            assert(mapped(f.hypergraph.adjacency@[j].sources@, midf.hypergraph.adjacency@[j].sources@, qf));
+            assert(r.h.s.values.table@[i] == qp[sf.h.s.values.table@[i] as int]);
+            assert(phi[qq[x] as int] == qc[x]);
+        } else {
+            let (j, kk) = lemma_seg_find(sgl, i - lf);
+            lemma_psum_concat(sfl, sgl, j);
+            assert(seg_at(sl, m + j, kk) == lf + seg_at(sgl, j, kk));
+            let y = g.hypergraph.adjacency@[j].sources@[kk].0 as int; assert(y < ng);
+            assert(s.h.s.values.table@[seg_at(sl, m + j, kk)] == midc.hypergraph.adjacency@[m + j].sources@[kk].0);
+            assert(mapped(c.hypergraph.adjacency@[m + j].sources@, midc.hypergraph.adjacency@[m + j].sources@, qc));
+            assert(c.hypergraph.adjacency@[m + j].sources@ =~= shift_ids(g.hypergraph.adjacency@[j].sources@, nf));
+            assert(sg.h.s.values.table@[seg_at(sgl, j, kk)] == midg.hypergraph.adjacency@[j].sources@[kk].0);
+            assert(mapped(g.hypergraph.adjacency@[j].sources@, midg.hypergraph.adjacency@[j].sources@, qg));
+            assert(r.h.s.values.table@[i] == qp[kf + sg.h.s.values.table@[i - lf]]);
+            assert(phi[qq[nf + y] as int] == qc[nf + y]);
+        }
+    }
+    assert forall|i: int| 0 <= i < mf + mg implies (#[trigger] s.h.t.values.table@[i]) == phi[r.h.t.values.table@[i] as int] by {
+        if i < mf {
+            let (j, kk) = lemma_seg_find(tfl, i);
+            lemma_psum_prefix(tl, tfl, j); lemma_psum_prefix(tl, tfl, j + 1);
+            assert(seg_at(tl, j, kk) == seg_at(tfl, j, kk));
+            let x = f.hypergraph.adjacency@[j].targets@[kk].0 as int; assert(x < nf);
+            assert(s.h.t.values.table@[seg_at(tl, j, kk)] == midc.hypergraph.adjacency@[j].targets@[kk].0);
+            assert(mapped(c.hypergraph.adjacency@[j].targets@, midc.hypergraph.adjacency@[j].targets@, qc));
+            assert(sf.h.t.values.table@[seg_at(tfl, j, kk)] == midf.hypergraph.adjacency@[j].targets@[kk].0);
+            assert(mapped(f.hypergraph.adjacency@[j].targets@, midf.hypergraph.adjacency@[j].targets@, qf));
+            assert(r.h.t.values.table@[i] == qp[sf.h.t.values.table@[i] as int]);
+            assert(phi[qq[x] as int] == qc[x]);
+        } else {
+            let (j, kk) = lemma_seg_find(tgl, i - mf);
+            lemma_psum_concat(tfl, tgl, j);
+            assert(seg_at(tl, m + j, kk) == mf + seg_at(tgl, j, kk));
+            let y = g.hypergraph.adjacency@[j].targets@[kk].0 as int; assert(y < ng);
+            assert(s.h.t.values.table@[seg_at(tl, m + j, kk)] == midc.hypergraph.adjacency@[m + j].targets@[kk].0);
+            assert(mapped(c.hypergraph.adjacency@[m + j].targets@, midc.hypergraph.adjacency@[m + j].targets@, qc));
+            assert(c.hypergraph.adjacency@[m + j].targets@ =~= shift_ids(g.hypergraph.adjacency@[j].targets@, nf));
+            assert(sg.h.t.values.table@[seg_at(tgl, j, kk)] == midg.hypergraph.adjacency@[j].targets@[kk].0);
+            assert(mapped(g.hypergraph.adjacency@[j].targets@, midg.hypergraph.adjacency@[j].targets@, qg));
+            assert(r.h.t.values.table@[i] == qp[kf + sg.h.t.values.table@[i - mf]]);
+            assert(phi[qq[nf + y] as int] == qc[nf + y]);
+        }
+    }
+    // interfaces
+    assert forall|i: int| 0 <= i < r.s.table@.len() implies (#[trigger] s.s.table@[i]) == phi[r.s.table@[i] as int] by {
+        let x = f.sources@[i].0 as int; assert(x < nf);
+        assert(ids(midc.sources@)[i] == midc.sources@[i].0); assert(ids(midf.sources@)[i] == midf.sources@[i].0);
+        assert(r.s.table@[i] == qp[sf.s.table@[i] as int]);
+        assert(phi[qq[x] as int] == qc[x]);
+    }
+    assert forall|i: int| 0 <= i < r.t.table@.len() implies (#[trigger] s.t.table@[i]) == phi[r.t.table@[i] as int] by {
+        let y = g.targets@[i].0 as int; assert(y < ng);
+        assert(ids(midc.targets@)[i] == midc.targets@[i].0); assert(ids(midg.targets@)[i] == midg.targets@[i].0);
+        assert(shift_ids(g.targets@, nf)[i].0 == g.targets@[i].0 + nf);
+        assert(r.t.table@[i] == qp[kf + sg.t.table@[i]]);
+        assert(phi[qq[nf + y] as int] == qc[nf + y]);
+    }
+    assert(s.h.x@ =~= r.h.x@);
+    assert(s.h.s.sources.table@ =~= r.h.s.sources.table@ && s.h.t.sources.table@ =~= r.h.t.sources.table@);
+    phi
+}
+''')
